@@ -65,6 +65,7 @@ type BundleCfg struct {
 	NoKeywordPropsInFull  bool
 	NoCollisions          bool
 	NoKeepNames           bool
+	KeepNamesPlainOnly    bool // KeepNames only together with the plain name layer
 	NoSharedSchemaPtrs    bool
 	NoAnonPtrsIntoAliases bool
 }
@@ -382,7 +383,7 @@ func GenFlattenCase(d *D, cfg BundleCfg) *FlattenCase {
 		g.auxDefs[p] = ns
 	}
 	g.Label(fmt.Sprintf("aux:%d", len(g.aux)))
-	if len(g.aux) == 0 && !cfg.NoKeepNames && g.Pct(15) {
+	if len(g.aux) == 0 && !cfg.NoKeepNames && !(cfg.KeepNamesPlainOnly && g.layer > 0) && g.Pct(15) {
 		g.opts.KeepNames = true
 	}
 	// collisions: an auxiliary definition whose folded name meets another definition's must be $ref-free
